@@ -15,7 +15,7 @@ func init() {
 		id: "C08",
 		li: levelInfo{
 			Level:       "other",
-			Explanation: "Static rules on the configuration store and the controller. R1: every concrete type sent on the event channel has a case in the controller's type switch and vice versa. R2: a deletion from the service table emits a remove event for the same entry; add-versus-delta is decided by the previous value never having been set (nil test of the value loaded before the mutation), and the stored state is updated before the emit. R3 (sibling cross-check): the store applies the removed list before the added list to its own endpoint slice, and the controller applies the two lists of one endpoint event in the same relative order. R4: only the designated functions write the processor table; the exists-already arm returns without creating, and a processor is registered only after it started. R5: a processor's configuration pointer is replaced only after every fallible step of the update succeeded. Convergence for every history is not decided; in particular an invalid configuration that is corrected later arrives as a config event for a missing processor and is ignored - that documented defect is not visible to these rules. R6: every event is sent by a plain blocking send, on the goroutine of the update handler, under the store's write lock (event order = state-change order). R7: the controller's handlers contain no go statement (events applied one at a time). R8: processor creation is gated on the configuration, so every event kind that carries a configuration attempts the creation when no processor exists. R2 also: once the add event is out the stored endpoint list is non-nil (the next update is a delta). R3 also: endpoints are compared by address only. R9: the shared configuration holder is written only at construction and nothing caches a configuration message. R10 (shared with C06.R12): every processor applies every endpoint event to its host set. The event channel is found by role (the struct field of type chan Event).",
+			Explanation: "Static rules on the configuration store and the controller. R1: every concrete type sent on the event channel has a case in the controller's type switch and vice versa. R2: a deletion from the service table emits a remove event for the same entry; add-versus-delta is decided by the previous value never having been set (nil test of the value loaded before the mutation), and the stored state is updated before the emit. R3 (sibling cross-check): the store applies the removed list before the added list to its own endpoint slice, and the controller applies the two lists of one endpoint event in the same relative order. R4: only the designated functions write the processor table; the exists-already arm returns without creating, and a processor is registered only after it started. R5: a processor's configuration pointer is replaced only after every fallible step of the update succeeded. Convergence for every history is not decided; in particular an invalid configuration that is corrected later arrives as a config event for a missing processor and is ignored - that documented defect is not visible to these rules. R6: every event is sent by a plain blocking send, on the goroutine of the update handler, under the store's write lock (event order = state-change order). R7: the controller's handlers contain no go statement (events applied one at a time). R8: processor creation is gated on the configuration, so every event kind that carries a configuration attempts the creation when no processor exists. R2 also: once the add event is out the stored endpoint list is non-nil (the next update is a delta). R3 also: endpoints are compared by address only. R9: the shared configuration holder is written only at construction and nothing caches a configuration message. R10 (shared with C06.R12): every processor applies every endpoint event to its host set. The event channel is found by role (the struct field of type chan Event). R11: an event that may have to create the processor (it has an Endpoints field) has that field set on every path from its construction to its emission. R12: no nil is stored into a slot of the stored endpoint list while an event shares the slice.",
 			TrustedBase: []string{"go/ssa", "VTA call graph"},
 		},
 		run: checkC08,
@@ -699,6 +699,10 @@ func checkC08(c *Ctx) {
 	checkLiveConfig(c, "R9")
 	c.Rule("R10", "the last hop: every processor applies every endpoint event to its host set (shared with C06.R12) - no add/remove/replace handler has a path that returns without handing the event's list to host.Set")
 	checkEndpointEventsReachSet(c, "R10")
+	c.Rule("R11", "an event that may have to create the processor (add, configuration update) carries the endpoint list on every path to its emission")
+	checkEventsCarryEndpoints(c, "R11", evtCh)
+	c.Rule("R12", "the stored endpoint list shares its array with queued add events: no nil is stored into one of its slots")
+	checkSharedEndpointArray(c, "R12")
 }
 
 // checkLiveConfig (C08.R9, C13.R9): a running Redis processor applies a configuration update by updating the one
@@ -768,4 +772,161 @@ func checkLiveConfig(c *Ctx, rule string) {
 	}
 	c.Expect(rule, 3)
 	_ = n
+}
+
+// checkEventsCarryEndpoints (C08.R11): an event from which the controller may have to create a processor (it has an
+// Endpoints field) carries the endpoint list on every path to its emission - the controller has no processor exactly
+// when an earlier attempt failed, and that has more causes than the store can see (a configuration that validates but
+// cannot be built), so "attach the list only when the previous configuration was invalid" leaves a processor with an
+// empty host set.
+func checkEventsCarryEndpoints(c *Ctx, rule string, evtCh *types.Var) {
+	p := c.P
+	n := 0
+	for _, fn := range p.FuncsIn(configPkg) {
+		if p.isTestFn(fn) {
+			continue
+		}
+		eachInstr(fn, func(_ *ssa.BasicBlock, _ int, in ssa.Instruction) {
+			al, ok := in.(*ssa.Alloc)
+			if !ok || !al.Heap {
+				return
+			}
+			nt := namedOf(deref(al.Type()))
+			if nt == nil || !strings.HasSuffix(nt.Obj().Name(), "Event") {
+				return
+			}
+			st, ok := nt.Underlying().(*types.Struct)
+			if !ok {
+				return
+			}
+			var epF *types.Var
+			for i := 0; i < st.NumFields(); i++ {
+				if st.Field(i).Name() == "Endpoints" {
+					epF = st.Field(i)
+				}
+			}
+			if epF == nil {
+				return
+			}
+			// the emission: the send of this value on the event channel, or the call that is handed it
+			isEmit := func(x ssa.Instruction) bool {
+				switch y := x.(type) {
+				case *ssa.Send:
+					return derives(y.X, func(v ssa.Value) bool { return v == ssa.Value(al) })
+				case *ssa.Call:
+					if g := calleeFn(y.Common()); g != nil && isModFn(g) {
+						for _, a := range y.Call.Args {
+							if derives(a, func(v ssa.Value) bool { return v == ssa.Value(al) }) {
+								return true
+							}
+						}
+					}
+				}
+				return false
+			}
+			hasEmit := false
+			eachInstr(fn, func(_ *ssa.BasicBlock, _ int, x ssa.Instruction) {
+				if isEmit(x) {
+					hasEmit = true
+				}
+			})
+			if !hasEmit {
+				return
+			}
+			n++
+			site := fmt.Sprintf("%s: %s carries the endpoints on every path", fnKey(fn), nt.Obj().Name())
+			isStore := func(x ssa.Instruction) bool {
+				s, ok := x.(*ssa.Store)
+				if !ok {
+					return false
+				}
+				f, base := fieldAddr(s.Addr)
+				return f == epF && base == ssa.Value(al) && !isNilConst(s.Val)
+			}
+			path := findPath(posOf(in), pathQuery{target: isEmit, avoid: isStore})
+			c.Check(path == nil, rule, site, al.Pos(), "the Endpoints field is set on every path from the construction to the emission", "an event that may have to create the processor is emitted without the endpoint list on some path ("+p.pathString(path)+"): when the controller has no processor for the service (an earlier creation failed for a reason the store cannot see) it builds one with no hosts, while the store holds the endpoints and will not announce them again")
+		})
+	}
+	if n < 2 {
+		c.Unresolved(rule, fmt.Sprintf("expected the add and the configuration event constructions, found %d", n))
+	}
+	_ = evtCh
+}
+
+// checkSharedEndpointArray (C08.R12): the add event hands the store's endpoint slice itself to the subscriber, so the
+// backing array is shared with events that are still queued. Removing an endpoint by shifting the tail keeps every
+// element of a queued event a live endpoint (the subscriber's operations are idempotent); storing nil into a slot of
+// that array does not - the subscriber dereferences it. No nil is stored into an element of the stored list.
+func checkSharedEndpointArray(c *Ctx, rule string) {
+	p := c.P
+	sw := p.Named(configPkg, "serviceWrapper")
+	var epF *types.Var
+	if sw != nil {
+		if st, ok := sw.Underlying().(*types.Struct); ok {
+			for i := 0; i < st.NumFields(); i++ {
+				if st.Field(i).Name() == "Endpoints" {
+					epF = st.Field(i)
+				}
+			}
+		}
+	}
+	if epF == nil {
+		c.Unresolved(rule, "the stored endpoint list")
+		return
+	}
+	// is the stored slice handed to an event without a copy?
+	aliased := false
+	nst, nbad := 0, 0
+	for _, fn := range p.FuncsIn(configPkg) {
+		if p.isTestFn(fn) {
+			continue
+		}
+		eachInstr(fn, func(_ *ssa.BasicBlock, _ int, in ssa.Instruction) {
+			s, ok := in.(*ssa.Store)
+			if !ok {
+				return
+			}
+			if f, base := fieldAddr(s.Addr); f != nil && f.Name() == "Endpoints" {
+				if nt := namedOf(deref(base.Type())); nt != nil && strings.HasSuffix(nt.Obj().Name(), "Event") {
+					if f2, _ := loadedField(s.Val); f2 == epF {
+						aliased = true
+					}
+				}
+			}
+		})
+	}
+	for _, fn := range p.FuncsIn(configPkg) {
+		if p.isTestFn(fn) {
+			continue
+		}
+		eachInstr(fn, func(_ *ssa.BasicBlock, _ int, in ssa.Instruction) {
+			s, ok := in.(*ssa.Store)
+			if !ok {
+				return
+			}
+			ia, ok := s.Addr.(*ssa.IndexAddr)
+			if !ok {
+				return
+			}
+			fromStore := derives(ia.X, func(v ssa.Value) bool {
+				f, _ := loadedField(v)
+				return f == epF
+			})
+			if !fromStore {
+				return
+			}
+			nst++
+			if isNilConst(s.Val) && aliased {
+				nbad++
+				c.Fail(rule, fmt.Sprintf("%s element store#%d into the stored endpoint list", fnKey(fn), nbad), s.Pos(), "nil is stored into a slot of the stored endpoint list, whose backing array the add event shares with the subscriber: an add event that is still queued then contains a nil endpoint and the controller dereferences it (the process dies, no processor runs)")
+			}
+		})
+	}
+	if nbad == 0 {
+		what := "the add event shares the stored slice"
+		if !aliased {
+			what = "no event shares the stored slice"
+		}
+		c.OK(rule, "no nil stored into the shared endpoint array", token.NoPos, fmt.Sprintf("%s; %d element stores into the stored list examined, none stores nil", what, nst))
+	}
 }
